@@ -1,1 +1,1 @@
-import DdsProofs.Hash
+import DdsProofs.Props.C05
